@@ -448,6 +448,12 @@ func scenarios() []scenario {
 	out = append(out, scenario{"c20-cold-sharedik", config{sk: "simple", ik: "simple", shared: true},
 		[]op{other(encOp("o", "p0", "x0"))},
 		decOp("a", "p0", "x0"), decOp("b", "p0", "x0")})
+	// key caching off, session caching on: cached sessions must not retain keys
+	for _, scp := range []string{"lru:2", "slru:2"} {
+		out = append(out, scenario{"c20-nocache-sesscache-" + scp, config{sk: "none", ik: "none", sessCache: scp},
+			[]op{other(encOp("o", "p0", "x0")), other(encOp("o", "p1", "x1")), churnOp("p0", "x0"), churnOp("p1", "x1")},
+			churnOp("p0", "x0"), churnOp("p1", "x1")})
+	}
 	// session churn against a shared cache
 	out = append(out, scenario{"churn-sharedik", config{sk: "lru:1", ik: "lru:1", shared: true},
 		[]op{encOp("a", "p0", "x0"), encOp("b", "p1", "x1")},
@@ -473,6 +479,11 @@ func scenarios() []scenario {
 			[]op{other(encOp("o", "p0", "x0")), other(encOp("o", "p1", "x1")), other(encOp("o", "p2", "x2")), other(encOp("o", "p3", "x3")),
 				churnOp("p0", "x0"), churnOp("p1", "x1"), churnOp("p0", "x0"), churnOp("p1", "x1"), churnOp("p0", "x0")},
 			churnOp("p2", "x2"), churnOp("p3", "x3")})
+		// a shared IK cache with per-session key caching switched off (the shared cache is real all the same)
+		// under a session cache: tearing down one evicted session must not close the cache the others use
+		out = append(out, scenario{"sesscache-sharedik-noikcache-" + sc, config{sk: "simple", ik: "none", shared: true, sessCache: sc},
+			[]op{encOp("a", "p0", "x0"), other(encOp("o", "p1", "x1")), other(encOp("o", "p2", "x2")), churnOp("p1", "x1"), churnOp("p2", "x2")},
+			decOp("a", "p0", "x0"), churnOp("p1", "x1")})
 		// cached sessions that EXPIRE (real time): the next Get of the partition drops the expired entry,
 		// which must be torn down like an evicted one (else its keys stay locked in memory for good)
 		out = append(out, scenario{"sesscache-expiry-" + sc2, config{sk: "simple", ik: "simple", sessCache: sc2, sessTTL: 15 * time.Millisecond},
@@ -613,7 +624,17 @@ func preempt(filter string) {
 				continue
 			}
 			kd0, rd0 := w.ckms.decs.Load(), w.cms.reads.Load()
-			r1, r2 := runOp(w, order[0]), runOp(w, order[1])
+			r1 := runOp(w, order[0])
+			kd1, rd1 := w.ckms.decs.Load(), w.cms.reads.Load()
+			r2 := runOp(w, order[1])
+			// C20, the other direction: with key caching switched off nothing is retained between calls,
+			// whatever else is cached (sessions): every operation goes to the metastore and the KMS
+			if strings.HasPrefix(sc.name, "c20-nocache") && r1 == "ok" && r2 == "ok" &&
+				(kd1 == kd0 || rd1 == rd0 || w.ckms.decs.Load() == kd1 || w.cms.reads.Load() == rd1) {
+				fmt.Fprintf(out, "sched %s seq=%s,%s => prop=C20 key caching is disabled but an operation made no metastore read / KMS unwrap (first: %d reads %d unwraps, second: %d reads %d unwraps) VIOLATION\n",
+					sc.name, order[0].name, order[1].name, rd1-rd0, kd1-kd0, w.cms.reads.Load()-rd1, w.ckms.decs.Load()-kd1)
+				nViol++
+			}
 			if d := w.ckms.decs.Load() - kd0; d > maxKD {
 				maxKD = d
 			}
